@@ -186,6 +186,77 @@ def _(it, ci, a, d):
     return ok(len(content.encode('utf-8')))
 
 
+@model('fs::read_to_string', 'std::fs::read_to_string')
+def _(it, ci, a, d):
+    """std::fs::read_to_string(path) = File::open + read_to_string (same symbolic file system, same log of opened files)"""
+    fs = _fs(it)
+    p = _pstr(a[0])
+    fs.opened.append(p)
+    it.env.setdefault('opened', []).append(p)
+    if not it.decide(fs.exists(p), 'fs_exists:' + p):
+        return err(Opaque('IoError', {'path': p, 'kind': 'NotFound'}))
+    alts = fs.files[p]['alts']
+    k = it.choose([c for c, _ in alts], 'fs_content:' + p) if len(alts) > 1 else 0
+    content = alts[k][1]
+    it.env.setdefault('reads', []).append((p, k))
+    if content is None:
+        return err(Opaque('IoError', {'path': p, 'kind': 'InvalidData'}))
+    return ok(StringV(content))
+
+
+@model('fs::read', 'std::fs::read')
+def _(it, ci, a, d):
+    r = TABLE['fs::read_to_string'](it, ci, a, d)
+    r = it.concretize(r)
+    if r.variant == 'Ok':
+        return ok(VecV(list(sv(r.fields[0]).encode('utf-8'))))
+    if r.fields[0].data.get('kind') == 'InvalidData':
+        raise Inconclusive('fs::read of a file whose modelled content is "not valid UTF-8" (bytes not modelled)')
+    return r
+
+
+@model('Path::parent')
+def _(it, ci, a, d):
+    # std: the path without its final component; None for "" and for a root
+    p = _pstr(a[0])
+    q = p.rstrip('/') if p != '/' else p
+    if q in ('', '/'):
+        return none()
+    if '/' not in q:
+        return some(Ref([PathV('')], 0))
+    head = q.rsplit('/', 1)[0]
+    return some(Ref([PathV(head if head else '/')], 0))
+
+
+@model('Path::file_name')
+def _(it, ci, a, d):
+    p = _pstr(a[0]).rstrip('/')
+    if not p or p.endswith('..'):
+        return none()
+    return some(p.rsplit('/', 1)[-1])
+
+
+@model('Path::to_path_buf', 'PathBuf::as_path')
+def _(it, ci, a, d):
+    return PathV(_pstr(a[0])) if a else PathV('')
+
+
+@model('Path::as_os_str', 'PathBuf::as_os_str')
+def _(it, ci, a, d):
+    return _pstr(a[0])
+
+
+@model('OsStr::is_empty')
+def _(it, ci, a, d):
+    return sv(a[0]) == ''
+
+
+@model('Path::starts_with')
+def _(it, ci, a, d):
+    p, q = _pstr(a[0]), _pstr(a[1])
+    return p == q or p.startswith(q.rstrip('/') + '/')
+
+
 # ---- format! ---------------------------------------------------------------------------------------
 def fmt_args(template, args):
     """decode rustc's compact format template (bytes as latin-1 str) against display args"""
